@@ -86,6 +86,7 @@ Definition touches (s : step) (p : path) : bool :=
   | SRenameCh o => path_eqb p (PFile o FChTmp) || path_eqb p (PFile o FCh)
   | SRename o => path_eqb p (PFile o FTmp) || path_eqb p (PFile o FCbin)
   | SDeleteOrig f => path_eqb p (PFile Orig f)
+  | SFail _ => false
   end.
 
 Lemma unlink_frame : forall rs q mok rs' p,
@@ -117,6 +118,7 @@ Proof.
   - apply orb_false_iff in Ht as [H1 H2]. destruct (present _ _); inversion H; subst; cbn.
     unfold upd. rewrite H1, H2. reflexivity.
   - destruct (r_checked rs); [eapply unlink_frame; eauto | inversion H; subst; reflexivity].
+  - discriminate.
 Qed.
 
 Lemma exec_frame : forall l rs rs' e p,
